@@ -6,6 +6,9 @@ pub mod c01;
 pub mod c02;
 pub mod c03;
 pub mod c04;
+pub mod c07;
+pub mod c08;
+pub mod c09;
 pub mod c12;
 pub mod ench;
 pub mod c10;
@@ -18,6 +21,9 @@ pub fn run(ctx: &Ctx) -> i32 {
         "C03" => c03::run(ctx),
         "C04" => c04::run(ctx),
         "C12" => c12::run(ctx),
+        "C07" => c07::run(ctx),
+        "C08" => c08::run(ctx),
+        "C09" => c09::run(ctx),
         "C10" => c10::run(ctx),
         _ => {
             eprintln!("unknown property {}", ctx.prop);
@@ -50,6 +56,9 @@ pub fn replay(path: &str) -> i32 {
         "C03" => c03::replay(&case),
         "C04" => c04::replay(&case),
         "C12" => c12::replay(&case),
+        "C07" => c07::replay(&case),
+        "C08" => c08::replay(&case),
+        "C09" => c09::replay(&case),
         "C10" => c10::replay(&case),
         _ => None,
     };
